@@ -633,6 +633,17 @@ func runC16(c *Ctx) {
 						return true
 					}
 					ro := objOfIdent(info, owner.X)
+					// the subscriber is a method of a link struct handed over as a method value: the group is
+					// a field of the struct, initialised where the struct is built
+					if ro == nil {
+						for _, cb := range callbacksIn(p, info, subCall.Args[0]) {
+							if cap := cb.Captured(p, info, owner.X, fd.Body); cap != nil {
+								if co := objOfIdent(info, cap); co != nil && (co == self || gf.IsVar(cap, spt, self)) {
+									ro = self
+								}
+							}
+						}
+					}
 					switch {
 					case ro == nil:
 						ownCounter = false
